@@ -107,7 +107,7 @@ def histories(draw):
     nind = 0
     for _ in range(draw(st.integers(1, 20))):
         o = draw(st.sampled_from(["new", "new", "new", "mutate", "mutate", "mutate_nosync", "add_nosync", "sync_all",
-                                  "view", "inplace", "inplace", "reopen_write", "rewrite"]))
+                                  "view", "inplace", "inplace", "reopen_write", "rewrite", "view_other"]))
         if o == "rewrite" and (any(x["op"] == "rewrite" for x in ops) or draw(st.integers(0, 2)) > 0):
             o = "view"
         # the file is locked by somebody else (a monitoring tool, another run) for the first `busy` write attempts of
@@ -127,7 +127,8 @@ def histories(draw):
                         "sync": draw(st.sampled_from(["individual", "individual", "all"])),
                         # the design is being re-evaluated (or its evaluation crashed) when the run is saved
                         "state": draw(st.sampled_from([None, None, "IN_PROGRESS", "EMPTY", "EVALUATED"]))})
-        elif o in ("sync_all", "view", "reopen_write", "rewrite"):
+        elif o in ("sync_all", "view", "reopen_write", "rewrite", "view_other"):
+            # view_other: in the same session an older, smaller result file of another study is opened for reading
             ops.append({"op": o})
             if o == "rewrite":
                 nind = 0
@@ -309,10 +310,42 @@ def check_history(case):
             classes.add("single-connection-mode")
         objs = []
         model = {}
+        other_db = None
+        if any(op["op"] == "view_other" for op in case["ops"]):
+            # the other study: two designs, recorded before anything of this history exists (so their ids are smaller)
+            from artap.problem import ProblemViewDataStore
+            po = make_problem([{"name": "u", "bounds": [0.0, 1.0]}], [{"name": "g"}], lambda ind: [0.0], name="older study")
+            extra.append(po)
+            other_db = os.path.join(po.working_dir, "older.sqlite")
+            with guard("store"):
+                po.data_store = SqliteDataStore(po, database_name=other_db)
+                for j in range(2):
+                    io = Individual([0.25 * j])
+                    io.costs = [float(j)]
+                    po.individuals.append(io)
+                    po.data_store.sync_individual(io)
+        all_ids = {}
         for k, op in enumerate(case["ops"]):
             o = op["op"]
+            if o == "view_other":
+                vo = None
+                try:
+                    with guard("store"):
+                        vo = ProblemViewDataStore(database_name=other_db)
+                        if len(vo.individuals) != 2:
+                            raise Violation("store", "other-store", "the older study shows %d designs" % len(vo.individuals))
+                finally:
+                    if vo is not None:
+                        dispose(vo)
+                classes.add("other-store-opened")
+                continue
             if o in ("new", "add_nosync"):
                 ind = Individual([])
+                # rows are keyed by id: two designs created in one session must never share one
+                if ind.id in all_ids:
+                    raise Violation("store", "id-reused", "a new design got id %r, which an earlier design of this session "
+                                    "already carries (its row would be overwritten)" % (ind.id,))
+                all_ids[ind.id] = True
                 _apply(ind, op["f"], objs)
                 objs.append(ind)
                 prob.individuals.append(ind)
